@@ -142,3 +142,427 @@ Proof.
   right; right. repeat split; auto; apply (c15_safe_lemma loc Hl).
 Qed.
 End WX.
+
+(* ---- C09 / C03 on application routes: immediate corollaries of [wstep_app] ------------------- *)
+Section WAPP.
+Variable C : crypto.
+Variable cfg : config.
+
+Lemma wstep_expired_stamp_lemma w req O full tf fr l c r ds d :
+  q_route req = RApp full tf fr l c r true ->
+  let b := q_browser req in
+  let j := jar_get b (w_sess w) in
+  let E := mkEnv C cfg O req (jar_get b (w_cook w)) j in
+  ahas k_uid j = true -> alookup k_last_action j = Some ds -> zparse ds = Some d ->
+  d + c_expire_after cfg <= o_now O ->
+  bmem k_uid (c_whitelist cfg) = false ->
+  (r = false \/ alookup k_rm (jar_get b (w_cook w)) = None) ->
+  let w' := fst (wstep C cfg w (AReq req) O) in
+  let o := snd (wstep C cfg w (AReq req) O) in
+  let W := bsplit ","%byte (bjoin ","%byte (c_whitelist cfg)) in
+  let j' := jar_get b (w_sess w') in
+  w_st w' = w_st w /\ ob_err o = false /\ ob_panic o = false /\
+  (ob_resp o = Some (refusal_response E false fr) \/
+   (ob_resp o = None /\ fr = RespRedirect /\ c_api cfg = true /\ exists n ek, fault_at n (o_faults O) = Some ek)) /\
+  (ob_resp o <> None ->
+     j' = apply_events j ([DelAll (bjoin ","%byte (c_whitelist cfg)); Del k_uid; Del k_last_action] ++ refusal_sev E fr) /\
+     (forall k, ahas k j' = true -> (bmem k W = true /\ k <> k_uid /\ k <> k_last_action) \/ k = k_flash_err) /\
+     (forall k, bmem k W = true -> k <> k_uid -> k <> k_last_action -> k <> k_flash_err ->
+        alookup k j' = alookup k j) /\
+     alookup k_uid j' = None /\ alookup k_last_action j' = None /\
+     jar_get b (w_cook w') = jar_get b (w_cook w)) /\
+  (ob_resp o = None -> w_sess w' = w_sess w /\ w_cook w' = w_cook w).
+Proof.
+  intros R. rewrite (wstep_app C cfg w req O _ _ _ _ _ _ _ R).
+  exact (step_expired_stamp_lemma C cfg w req O full tf fr l c r ds d R).
+Qed.
+
+Lemma wstep_fresh_stamp_lemma w req O full tf fr l c r ds d :
+  q_route req = RApp full tf fr l c r true ->
+  let b := q_browser req in
+  let j := jar_get b (w_sess w) in
+  bempty (aget k_uid j) = false -> alookup k_last_action j = Some ds -> zparse ds = Some d ->
+  o_now O < d + c_expire_after cfg ->
+  let w' := fst (wstep C cfg w (AReq req) O) in
+  let o := snd (wstep C cfg w (AReq req) O) in
+  let j' := jar_get b (w_sess w') in
+  (ob_resp o <> None ->
+     alookup k_last_action j' = Some (zdec (o_now O)) /\
+     alookup k_uid j' = alookup k_uid j /\
+     (forall k, k <> k_last_action -> k <> k_flash_err -> alookup k j' = alookup k j) /\
+     (exists n, j' = apply_events j (Put k_last_action (zdec (o_now O)) :: repeat (Put k_flash_err v_flash) n)) /\
+     jar_get b (w_cook w') = jar_get b (w_cook w)) /\
+  (ob_resp o = None -> w_sess w' = w_sess w /\ w_cook w' = w_cook w).
+Proof.
+  intros R. rewrite (wstep_app C cfg w req O _ _ _ _ _ _ _ R).
+  exact (step_fresh_stamp_lemma C cfg w req O full tf fr l c r ds d R).
+Qed.
+
+Lemma wstep_blocks_locked_lemma w req O full tf fr c r e :
+  q_route req = RApp full tf fr true c r e ->
+  let b := q_browser req in
+  let E := mkEnv C cfg O req (jar_get b (w_cook w)) (jar_get b (w_sess w)) in
+  let w' := fst (wstep C cfg w (AReq req) O) in
+  let o := snd (wstep C cfg w (AReq req) O) in
+  (exists d, ob_resp o = Some (RespPage 200 (bs "app") d)) ->
+  exists pid u, stack_names E r pid /\
+    ulookup pid (s_users (w_st w)) = Some u /\ ulookup pid (s_users (w_st w')) = Some u /\
+    u_locked u <= o_now O.
+Proof.
+  intros R. rewrite (wstep_app C cfg w req O _ _ _ _ _ _ _ R).
+  exact (step_blocks_locked_lemma C cfg w req O full tf fr c r e R).
+Qed.
+
+Lemma wstep_blocks_unconfirmed_lemma w req O full tf fr l r e :
+  q_route req = RApp full tf fr l true r e ->
+  let b := q_browser req in
+  let E := mkEnv C cfg O req (jar_get b (w_cook w)) (jar_get b (w_sess w)) in
+  let w' := fst (wstep C cfg w (AReq req) O) in
+  let o := snd (wstep C cfg w (AReq req) O) in
+  (exists d, ob_resp o = Some (RespPage 200 (bs "app") d)) ->
+  exists pid u, stack_names E r pid /\
+    ulookup pid (s_users (w_st w)) = Some u /\ ulookup pid (s_users (w_st w')) = Some u /\
+    u_confirmed u = true.
+Proof.
+  intros R. rewrite (wstep_app C cfg w req O _ _ _ _ _ _ _ R).
+  exact (step_blocks_unconfirmed_lemma C cfg w req O full tf fr l r e R).
+Qed.
+
+(* [step_refused] with the router as mounted *)
+Definition wstep_refused (w : world) (req : request) (O : oracle) (p : bytes) : Prop :=
+  let w' := fst (wstep C cfg w (AReq req) O) in
+  let o := snd (wstep C cfg w (AReq req) O) in
+  w_st w' = w_st w /\ ob_err o = false /\ ob_panic o = false /\
+  (ob_resp o = Some (if c_api cfg then RespRedirectAPI 307 p true else RespRedirect302 p) \/
+   (ob_resp o = None /\ c_api cfg = true /\ exists n ek, fault_at n (o_faults O) = Some ek)) /\
+  (c_api cfg = false -> ob_resp o <> None ->
+     alookup k_flash_err (jar_get (q_browser req) (w_sess w')) = Some v_flash).
+
+Lemma wstep_refused_of_step w req O p full tf fr l c r e :
+  q_route req = RApp full tf fr l c r e -> step_refused C cfg w req O p -> wstep_refused w req O p.
+Proof. intros R H. unfold wstep_refused. rewrite (wstep_app C cfg w req O _ _ _ _ _ _ _ R). exact H. Qed.
+
+Lemma wstep_lock_mw_refuses_lemma w req O full tf fr c r e u :
+  q_route req = RApp full tf fr true c r e ->
+  let b := q_browser req in
+  let j := jar_get b (w_sess w) in
+  let E := mkEnv C cfg O req (jar_get b (w_cook w)) j in
+  bempty (aget k_uid j) = false -> (e = true -> stamp_expired cfg (o_now O) j = false) ->
+  reqs_ok E full tf = true -> fault_at 0 (o_faults O) = None ->
+  ulookup (aget k_uid j) (s_users (w_st w)) = Some u -> o_now O < u_locked u ->
+  wstep_refused w req O (p_lock_notok_of cfg).
+Proof.
+  intros R b j E H1 H2 H3 H4 H5 H6. apply (wstep_refused_of_step w req O _ _ _ _ _ _ _ _ R).
+  exact (step_lock_mw_refuses_lemma C cfg w req O full tf fr c r e u R H1 H2 H3 H4 H5 H6).
+Qed.
+
+Lemma wstep_confirm_mw_refuses_lemma w req O full tf fr l r e u :
+  q_route req = RApp full tf fr l true r e ->
+  let b := q_browser req in
+  let j := jar_get b (w_sess w) in
+  let E := mkEnv C cfg O req (jar_get b (w_cook w)) j in
+  bempty (aget k_uid j) = false -> (e = true -> stamp_expired cfg (o_now O) j = false) ->
+  reqs_ok E full tf = true -> fault_at 0 (o_faults O) = None ->
+  ulookup (aget k_uid j) (s_users (w_st w)) = Some u ->
+  (l = true -> u_locked u <= o_now O) -> u_confirmed u = false ->
+  wstep_refused w req O (p_confirm_notok_of cfg).
+Proof.
+  intros R b j E H1 H2 H3 H4 H5 H6 H7. apply (wstep_refused_of_step w req O _ _ _ _ _ _ _ _ R).
+  exact (step_confirm_mw_refuses_lemma C cfg w req O full tf fr l r e u R H1 H2 H3 H4 H5 H6 H7).
+Qed.
+End WAPP.
+
+Lemma wstep_refused_reading C cfg w req O p :
+  wstep_refused C cfg w req O p <->
+  (let w' := fst (wstep C cfg w (AReq req) O) in
+   let o := snd (wstep C cfg w (AReq req) O) in
+   w_st w' = w_st w /\ ob_err o = false /\ ob_panic o = false /\
+   (ob_resp o = Some (if c_api cfg then RespRedirectAPI 307 p true else RespRedirect302 p) \/
+    (ob_resp o = None /\ c_api cfg = true /\ exists n ek, fault_at n (o_faults O) = Some ek)) /\
+   (c_api cfg = false -> ob_resp o <> None ->
+      alookup k_flash_err (jar_get (q_browser req) (w_sess w')) = Some v_flash)).
+Proof. reflexivity. Qed.
+
+(* ---- C08: the gate of a module route, reached through the wrapper ----------------------------- *)
+(* the gate with a pid possibly cached in the context - as the wrapper leaves it: the cached pid is
+   the view's uid *)
+Section GW.
+Variable E : env.
+Notation cfg := (e_cfg E).
+Notation sess := (e_sess E).
+Notation O := (e_O E).
+
+Lemma load_cu_nouid_gen h :
+  h_cuser h = None -> cur_pid E h = aget k_uid sess -> bempty (aget k_uid sess) = true ->
+  load_current_user E h = (Err ErrUserNotFound, h).
+Proof.
+  intros Hc Hp Hb. unfold load_current_user, current_user_id, bind, get_h. rewrite Hc.
+  unfold cur_pid in Hp. destruct (h_cpid h) as [p|]; [subst p|]; unfold ret; rewrite Hb; reflexivity.
+Qed.
+
+Opaque k_uid.
+Lemma load_cu_load_gen h :
+  h_cuser h = None -> cur_pid E h = aget k_uid sess -> bempty (aget k_uid sess) = false ->
+  load_current_user E h =
+  match fault_at (h_ncalls h) (o_faults O) with
+  | Some EGeneric => (Err ErrOther, after_load E h)
+  | Some ENotFound => (Err ErrUserNotFound, after_load E h)
+  | None => match ulookup (aget k_uid sess) (s_users (h_st h)) with
+            | Some u => (Ok u, after_load E h <| h_cuser := Some u |>)
+            | None => (Err ErrUserNotFound, after_load E h)
+            end
+  end.
+Proof.
+  intros Hc Hp Hb. unfold load_current_user, current_user_id, bind, get_h. rewrite Hc.
+  unfold cur_pid in Hp. destruct (h_cpid h) as [p|] eqn:Hq; [subst p|].
+  - unfold ret. rewrite Hb. unfold set_cpid, modify, st_load, backend, set_cuser, modify. cbn.
+    destruct (fault_at (h_ncalls h) (o_faults O)) as [[|]|]; try reflexivity.
+    destruct (ulookup (aget k_uid sess) (s_users (h_st h))); reflexivity.
+  - unfold ret. rewrite Hb. unfold set_cpid, modify, st_load, backend, set_cuser, modify. cbn.
+    destruct (fault_at (h_ncalls h) (o_faults O)) as [[|]|]; try reflexivity.
+    destruct (ulookup (aget k_uid sess) (s_users (h_st h))); reflexivity.
+Qed.
+Transparent k_uid.
+
+(* the whole decision as one equation *)
+Lemma gate_decision_gen mp full tf fr h :
+  h_cuser h = None -> cur_pid E h = aget k_uid sess ->
+  auth_middleware E mp full tf fr h =
+  if reqs_ok E full tf && negb (bempty (aget k_uid sess)) then
+    match fault_at (h_ncalls h) (o_faults O) with
+    | Some EGeneric => (log [] ;;; write_resp (RespStatus 500) ;;; ret false) (after_load E h)
+    | Some ENotFound => refuse_now E mp fr (after_load E h)
+    | None => match ulookup (aget k_uid sess) (s_users (h_st h)) with
+              | Some u => (Ok true, after_load E h <| h_cuser := Some u |>)
+              | None => refuse_now E mp fr (after_load E h)
+              end
+    end
+  else refuse_now E mp fr h.
+Proof.
+  intros Hc Hp. destruct (reqs_ok E full tf) eqn:Rq; cbn [andb].
+  2:{ apply gate_unmet. exact Rq. }
+  unfold auth_middleware. rewrite (reqs_ok_true _ _ _ Rq). unfold try.
+  destruct (bempty (aget k_uid sess)) eqn:Hb; cbn [negb].
+  - rewrite (load_cu_nouid_gen _ Hc Hp Hb). reflexivity.
+  - rewrite (load_cu_load_gen _ Hc Hp Hb).
+    destruct (fault_at (h_ncalls h) (o_faults O)) as [[|]|]; try reflexivity.
+    destruct (ulookup (aget k_uid sess) (s_users (h_st h))); reflexivity.
+Qed.
+
+Lemma gate_iff_gen mp full tf fr h :
+  h_cuser h = None -> cur_pid E h = aget k_uid sess -> h_out h = None ->
+  fault_at (h_ncalls h) (o_faults O) = None ->
+  ((exists h', auth_middleware E mp full tf fr h = (Ok true, h')) <->
+   (reqs_ok E full tf = true /\ bempty (aget k_uid sess) = false /\
+    exists u, ulookup (aget k_uid sess) (s_users (h_st h)) = Some u)).
+Proof.
+  intros Hc Hp Ho Hf. rewrite (gate_decision_gen mp full tf fr h Hc Hp), Hf.
+  assert (Ho' : h_out (after_load E h) = None) by exact Ho.
+  split.
+  - intros (h' & Eq).
+    destruct (reqs_ok E full tf); cbn [andb] in Eq.
+    2:{ destruct (refuse_now_spec E mp fr h Ho) as (k & Rk & _). rewrite Rk in Eq. discriminate Eq. }
+    destruct (bempty (aget k_uid sess)); cbn [negb] in Eq.
+    { destruct (refuse_now_spec E mp fr h Ho) as (k & Rk & _). rewrite Rk in Eq. discriminate Eq. }
+    destruct (ulookup (aget k_uid sess) (s_users (h_st h))) as [u|].
+    + split; [reflexivity|]. split; [reflexivity|]. exists u. reflexivity.
+    + destruct (refuse_now_spec E mp fr (after_load E h) Ho') as (k & Rk & _). rewrite Rk in Eq. discriminate Eq.
+  - intros (Rq & Hb & u & Hu). rewrite Rq, Hb, Hu. cbn [andb negb]. eexists. reflexivity.
+Qed.
+
+Lemma gate_refusal_gen mp full tf fr h :
+  h_cuser h = None -> cur_pid E h = aget k_uid sess -> h_out h = None ->
+  fault_at (h_ncalls h) (o_faults O) = None ->
+  gate_refuses E full tf h ->
+  exists h', auth_middleware E mp full tf fr h = (Ok false, h') /\
+    h_st h' = h_st h /\ h_cuser h' = None /\ h_cev h' = h_cev h /\
+    ((h_sev h' = h_sev h ++ refusal_sev E fr /\
+      h_out h' = Some (mkWritten (refusal_response E mp fr) (h_sev h ++ refusal_sev E fr) (h_cev h))) \/
+     (fr = RespRedirect /\ c_api cfg = true /\ h_sev h' = h_sev h /\ h_out h' = None /\
+      exists n ek, fault_at n (o_faults O) = Some ek)).
+Proof.
+  intros Hc Hp Ho Hf Hr. rewrite (gate_decision_gen mp full tf fr h Hc Hp), Hf.
+  assert (Ho' : h_out (after_load E h) = None) by exact Ho.
+  assert (Direct : exists h', refuse_now E mp fr h = (Ok false, h') /\
+    h_st h' = h_st h /\ h_cuser h' = None /\ h_cev h' = h_cev h /\
+    ((h_sev h' = h_sev h ++ refusal_sev E fr /\
+      h_out h' = Some (mkWritten (refusal_response E mp fr) (h_sev h ++ refusal_sev E fr) (h_cev h))) \/
+     (fr = RespRedirect /\ c_api cfg = true /\ h_sev h' = h_sev h /\ h_out h' = None /\
+      exists n ek, fault_at n (o_faults O) = Some ek))).
+  { destruct (refuse_now_spec E mp fr h Ho) as (h' & R & A1 & A2 & A3 & A4 & A5).
+    exists h'. split; [exact R|]. split; [exact A1|]. split; [rewrite A2; exact Hc|]. split; [exact A4|exact A5]. }
+  destruct (reqs_ok E full tf) eqn:Rq; cbn [andb]; [|exact Direct].
+  destruct (bempty (aget k_uid sess)) eqn:Hb; cbn [negb]; [exact Direct|].
+  destruct Hr as [Hr|[Hr|Hr]]; [congruence|congruence|]. rewrite Hr.
+  destruct (refuse_now_spec E mp fr (after_load E h) Ho') as (h' & R & A1 & A2 & A3 & A4 & A5).
+  exists h'. split; [exact R|]. split; [exact A1|]. split; [rewrite A2; exact Hc|]. split; [exact A4|exact A5].
+Qed.
+
+Lemma behind_runs_gen full inner h u :
+  reqs_ok E full false = true -> h_cuser h = None -> cur_pid E h = aget k_uid sess ->
+  bempty (aget k_uid sess) = false -> ulookup (aget k_uid sess) (s_users (h_st h)) = Some u ->
+  fault_at (h_ncalls h) (o_faults O) = None ->
+  behind E full inner h = inner (after_load E h <| h_cuser := Some u |>).
+Proof.
+  intros Rq Hc Hp Hb Hu Hf. apply behind_admitted.
+  rewrite (gate_decision_gen true full false (c_unauthed cfg) h Hc Hp), Rq, Hb, Hf, Hu. reflexivity.
+Qed.
+
+Lemma behind_refusal_gen full h :
+  h_cuser h = None -> cur_pid E h = aget k_uid sess -> h_out h = None ->
+  fault_at (h_ncalls h) (o_faults O) = None ->
+  gate_refuses E full false h ->
+  exists h', (forall inner, behind E full inner h = (Ok tt, h')) /\
+    h_st h' = h_st h /\ h_cuser h' = None /\ h_cev h' = h_cev h /\
+    ((h_sev h' = h_sev h ++ refusal_sev E (c_unauthed cfg) /\
+      h_out h' = Some (mkWritten (refusal_response E true (c_unauthed cfg))
+                                 (h_sev h ++ refusal_sev E (c_unauthed cfg)) (h_cev h))) \/
+     (c_unauthed cfg = RespRedirect /\ c_api cfg = true /\ h_sev h' = h_sev h /\ h_out h' = None /\
+      exists n ek, fault_at n (o_faults O) = Some ek)).
+Proof.
+  intros Hc Hp Ho Hf Hr.
+  destruct (gate_refusal_gen true full false (c_unauthed cfg) h Hc Hp Ho Hf Hr) as (h' & A & B).
+  exists h'. split; [|exact B]. intros inner. apply behind_refused. exact A.
+Qed.
+End GW.
+
+(* what the wrapper leaves for the gate: no context user, nothing written, the user table as the
+   request found it, and CurrentUserID = the uid of the view *)
+Lemma wrapper_for_gate E st O h1 s2 :
+  remember_mw E (init_hst st O) = (Ok tt, h1) -> remembered_view (e_sess E) h1 = (Ok s2, h1) ->
+  h_cuser h1 = None /\ h_out h1 = None /\ s_users (h_st h1) = s_users st /\
+  cur_pid (with_sess E s2) h1 = aget k_uid s2.
+Proof.
+  intros RM RV. destruct (wrapper_result E st O h1 s2 RM RV) as (Ku & Kc & Ko & [[Hp ->]|(pid & Hp & -> & _)]).
+  - split; [exact Kc|]. split; [exact Ko|]. split; [exact Ku|]. unfold cur_pid. rewrite Hp. reflexivity.
+  - split; [exact Kc|]. split; [exact Ko|]. split; [exact Ku|]. unfold cur_pid. rewrite Hp.
+    symmetry. apply aget_uid_overlay.
+Qed.
+
+Section GW2.
+Variable E : env.        (* the request as it arrived *)
+Variable st : storage.
+Variable orc : oracle.
+Variables (h1 : hst) (s2 : amap).
+Hypothesis RM : remember_mw E (init_hst st orc) = (Ok tt, h1).
+Hypothesis RV : remembered_view (e_sess E) h1 = (Ok s2, h1).
+Notation V := (with_sess E s2).
+
+Lemma c08w_gate_decision_lemma mp full tf fr :
+  auth_middleware V mp full tf fr h1 =
+  if reqs_ok V full tf && negb (bempty (aget k_uid s2)) then
+    match fault_at (h_ncalls h1) (o_faults (e_O E)) with
+    | Some EGeneric => (log [] ;;; write_resp (RespStatus 500) ;;; ret false) (after_load V h1)
+    | Some ENotFound => refuse_now V mp fr (after_load V h1)
+    | None => match ulookup (aget k_uid s2) (s_users st) with
+              | Some u => (Ok true, after_load V h1 <| h_cuser := Some u |>)
+              | None => refuse_now V mp fr (after_load V h1)
+              end
+    end
+  else refuse_now V mp fr h1.
+Proof.
+  destruct (wrapper_for_gate E st orc h1 s2 RM RV) as (Hc & Ho & Hu & Hp).
+  rewrite (gate_decision_gen V mp full tf fr h1 Hc Hp). cbn [with_sess e_sess e_O]. rewrite Hu. reflexivity.
+Qed.
+
+Lemma c08w_gate_iff_lemma mp full tf fr :
+  fault_at (h_ncalls h1) (o_faults (e_O E)) = None ->
+  ((exists h2, auth_middleware V mp full tf fr h1 = (Ok true, h2)) <->
+   (reqs_ok V full tf = true /\ bempty (aget k_uid s2) = false /\
+    exists u, ulookup (aget k_uid s2) (s_users st) = Some u)).
+Proof.
+  intros Hf. destruct (wrapper_for_gate E st orc h1 s2 RM RV) as (Hc & Ho & Hu & Hp).
+  pose proof (gate_iff_gen V mp full tf fr h1 Hc Hp Ho Hf) as K. cbn [with_sess e_sess] in K. rewrite Hu in K. exact K.
+Qed.
+
+(* the view is the session as it arrived, or the half-authenticated overlay of a session that named
+   nobody; so a session without identity never passes a full-auth requirement, whatever its cookie,
+   the storage and the oracle *)
+Lemma c08w_no_identity_never_full_lemma mp tf fr h2 :
+  bempty (aget k_uid (e_sess E)) = true -> auth_middleware V mp true tf fr h1 <> (Ok true, h2).
+Proof.
+  intros Hb Eq. destruct (auth_middleware_admits _ _ _ _ _ _ _ Eq) as (Rq & _ & Hx & _).
+  destruct (wrapper_result E st orc h1 s2 RM RV) as (_ & Kc & _ & [[Hp S2]|(pid & _ & S2 & _)]).
+  - destruct (Hx Kc Hp) as (Hb' & _). cbn [with_sess e_sess] in Hb'. rewrite S2 in Hb'. congruence.
+  - unfold reqs_ok in Rq. cbn [with_sess e_sess] in Rq. rewrite S2, ahas_halfauth_view in Rq. discriminate Rq.
+Qed.
+
+Lemma c08w_view_halfauth_lemma :
+  h_cpid h1 <> None ->
+  ahas k_halfauth s2 = true /\ bempty (aget k_uid (e_sess E)) = true /\ (forall tf, reqs_ok V true tf = false).
+Proof.
+  intros Hn. destruct (wrapper_result E st orc h1 s2 RM RV) as (_ & _ & _ & [[Hp _]|(pid & _ & S2 & Hb & _)]); [congruence|].
+  assert (Hh : ahas k_halfauth s2 = true) by (rewrite S2; apply ahas_halfauth_view).
+  split; [exact Hh|]. split; [exact Hb|]. intros tf. unfold reqs_ok. cbn [with_sess e_sess]. rewrite Hh. reflexivity.
+Qed.
+
+Hypothesis W : wrapped_route E = true.
+
+Lemma serve_top_cut_eq : serve_top E (init_hst st orc) = serve V h1.
+Proof.
+  rewrite (serve_top_wrapped _ W). unfold bind at 1. rewrite RM. unfold bind. rewrite RV. reflexivity.
+Qed.
+
+(* the handler behind the gate runs, from exactly the state the gate hands on *)
+Lemma c08w_serve_top_runs_lemma full inner u :
+  route_table V = Handler (behind V full inner) ->
+  reqs_ok V full false = true -> bempty (aget k_uid s2) = false ->
+  ulookup (aget k_uid s2) (s_users st) = Some u ->
+  fault_at (h_ncalls h1) (o_faults (e_O E)) = None ->
+  serve_top E (init_hst st orc) = with_error_handler V inner (after_load V h1 <| h_cuser := Some u |>).
+Proof.
+  intros RT Rq Hb Hu Hf. destruct (wrapper_for_gate E st orc h1 s2 RM RV) as (Hc & Ho & Ku & Hp).
+  rewrite serve_top_cut_eq. unfold serve. rewrite RT. unfold with_error_handler. apply try_congr.
+  apply (behind_runs_gen V full inner h1 u Rq Hc Hp Hb); [|exact Hf].
+  cbn [with_sess e_sess]. rewrite Ku. exact Hu.
+Qed.
+
+(* refused: the result of the whole request does not depend on the handler behind the gate *)
+Lemma c08w_serve_top_not_run_lemma full :
+  fault_at (h_ncalls h1) (o_faults (e_O E)) = None ->
+  reqs_ok V full false = false \/ bempty (aget k_uid s2) = true \/ ulookup (aget k_uid s2) (s_users st) = None ->
+  exists h', (forall inner, route_table V = Handler (behind V full inner) -> serve_top E (init_hst st orc) = (Ok tt, h')) /\
+    h_st h' = h_st h1 /\ s_users (h_st h') = s_users st /\ h_cuser h' = None /\ h_cev h' = h_cev h1 /\
+    ((h_sev h' = h_sev h1 ++ refusal_sev V (c_unauthed (e_cfg E)) /\
+      h_out h' = Some (mkWritten (refusal_response V true (c_unauthed (e_cfg E)))
+                                 (h_sev h1 ++ refusal_sev V (c_unauthed (e_cfg E))) (h_cev h1))) \/
+     (c_unauthed (e_cfg E) = RespRedirect /\ c_api (e_cfg E) = true /\ h_sev h' = h_sev h1 /\ h_out h' = None /\
+      exists n ek, fault_at n (o_faults (e_O E)) = Some ek)).
+Proof.
+  intros Hf Hr. destruct (wrapper_for_gate E st orc h1 s2 RM RV) as (Hc & Ho & Ku & Hp).
+  assert (Hr' : gate_refuses V full false h1).
+  { unfold gate_refuses. cbn [with_sess e_sess]. rewrite Ku. exact Hr. }
+  destruct (behind_refusal_gen V full h1 Hc Hp Ho Hf Hr') as (h' & A & B1 & B2 & B3 & B4).
+  exists h'. split.
+  - intros inner RT. rewrite serve_top_cut_eq. unfold serve. rewrite RT. apply error_handler_ok. apply A.
+  - split; [exact B1|]. split; [rewrite B1; exact Ku|]. split; [exact B2|]. split; [exact B3|exact B4].
+Qed.
+End GW2.
+
+(* the OTP add / clear routes sit behind the gate without the full-auth requirement *)
+Definition otp_settings_route (r : route) : bool :=
+  match r with ROtpAdd | ROtpClear => true | _ => false end.
+
+Lemma otp_settings_route_table E :
+  otp_settings_route (q_route (e_req E)) = true ->
+  (exists inner, route_table E = Handler (behind E false inner)) \/
+  route_table E = NotFound \/ route_table E = MethodNotAllowed.
+Proof.
+  intros S. unfold route_table.
+  destruct (q_route (e_req E)) eqn:R; try discriminate S; clear S;
+    destruct (q_meth (e_req E)) eqn:M; unfold when, get_post, on_method; rewrite ?M;
+    repeat match goal with |- context [if ?c then _ else _] => destruct c end;
+    eauto.
+Qed.
+
+(* a gated route that is not mounted / wrong method: 404 / 405, after the wrapper *)
+Lemma gated_route_reading r :
+  (settings_route r = true \/ otp_settings_route r = true) <->
+  r = ROtpAdd \/ r = ROtpClear \/
+  r = RTotpSetup \/ r = RTotpQR \/ r = RTotpConfirm \/ r = RTotpRemove \/ r = RSmsSetup \/ r = RSmsConfirm \/
+  r = RSmsRemove \/ (exists k, r = REmailVerify k) \/ (exists k, r = REmailVerifyEnd k) \/ r = RRecoveryRegen.
+Proof.
+  split.
+  - intros [H|H]; destruct r; try discriminate H; eauto 14.
+  - intros [->|[->|[->|[->|[->|[->|[->|[->|[->|[(k & ->)|[(k & ->)| ->]]]]]]]]]]]; cbn; auto.
+Qed.
